@@ -2,8 +2,8 @@
    mux_ok (mux_ok_auto when the reader has to find the page), however the data units are packed into PES packets,
    the reader returns exactly the cues the schedule denotes. *)
 From Coq Require Import List ZArith NArith Bool Lia Permutation.
-From Astisub Require Import Kit.Base Kit.Str Kit.GoMap Gen.TtxTables Model.TtxRow Model.Ttx Model.TtxSpec.
-From Astisub Require Import Proofs.TtxTables Proofs.TtxTotal Proofs.TtxRowProofs Proofs.TtxCodec Proofs.TtxSteps.
+From Astisub Require Import Kit.Base Kit.Str Kit.GoMap Gen.TtxTables Model.TtxRow Model.Ttx Model.TtxSpec Model.TtxStd.
+From Astisub Require Import Proofs.TtxTables Proofs.TtxStdProofs Proofs.TtxTotal Proofs.TtxRowProofs Proofs.TtxCodec Proofs.TtxSteps.
 Import ListNotations.
 Open Scope N_scope.
 
@@ -191,7 +191,12 @@ Definition cdinv (tr : N) (d : cdec) : Prop :=
   /\ match cd_last d with Some l => cd_c d = g_table tr l | None => True end.
 
 Lemma g_table_ok tr cs : charset_for tr cs = Ok (g_table tr cs) /\ length (g_table tr cs) = 96%nat.
-Proof. unfold g_table. destruct (charset_for_total tr cs) as (c & E & L). rewrite E. split; [reflexivity | exact L]. Qed.
+Proof.
+  unfold g_table. destruct (charset_for_total tr cs) as (c & E & L).
+  destruct (std_text_table (triplet_key tr) cs) as [t|] eqn:S.
+  - rewrite (std_text_table_is_code tr cs t S) in E. inversion E; subst. split; [apply std_text_table_is_code; exact S | exact L].
+  - rewrite E. split; [reflexivity | exact L].
+Qed.
 
 Lemma cdst_cdinv d st : cdst d st -> cdinv (dstate_triplet st) d.
 Proof.
